@@ -146,13 +146,94 @@ pub enum QMode {
     Mixed(u8),
 }
 
+/// Terminal operation of a parallel query.
+#[derive(Clone, Copy, Debug, PartialEq, Eq, Serialize, Deserialize)]
+pub enum PTerm {
+    ForEach,
+    Collect,
+    FoldReduce,
+    Count,
+    FilterCollect,
+    FindAny,
+    Any,
+    /// through `run_par_system` on a generated `ParSystem`
+    System,
+}
+pub const PTERMS: [PTerm; 8] = [PTerm::ForEach, PTerm::Collect, PTerm::FoldReduce, PTerm::Count, PTerm::FilterCollect, PTerm::FindAny, PTerm::Any, PTerm::System];
+
+impl PTerm {
+    /// short-circuiting terminals may stop early: they are run without writes
+    pub fn short_circuit(self) -> bool {
+        matches!(self, PTerm::FindAny | PTerm::Any)
+    }
+}
+
+#[derive(Clone, Debug, Default)]
+pub struct ParOut {
+    pub rows: Vec<QRow>,
+    pub count: Option<usize>,
+    pub found: Option<Option<QRow>>,
+    pub any: Option<bool>,
+}
+
+/// The row predicate used by the filtering / searching terminals (a function of the values read).
+pub fn row_pred(cols: &[(u8, Option<u32>)]) -> bool {
+    let s: u64 = cols.iter().map(|(c, v)| *c as u64 + v.map_or(7, |x| x as u64 % 1000)).sum();
+    (s + cols.len() as u64) % 3 != 0
+}
+
+pub fn qrow_pred(r: &QRow) -> bool {
+    let cols: Vec<(u8, Option<u32>)> = r.cols.iter().map(|(c, o)| (*c, o.map(|(b, _)| b.payload))).collect();
+    row_pred(&cols)
+}
+
+pub fn par_consume<I>(term: PTerm, it: I) -> ParOut
+where
+    I: rayon::iter::ParallelIterator<Item = QRow>,
+{
+    use rayon::iter::ParallelIterator;
+    let mut out = ParOut::default();
+    match term {
+        PTerm::ForEach | PTerm::System => {
+            let rows = std::sync::Mutex::new(Vec::new());
+            it.for_each(|r| rows.lock().unwrap().push(r));
+            out.rows = rows.into_inner().unwrap();
+        }
+        PTerm::Collect => out.rows = it.collect(),
+        PTerm::FoldReduce => {
+            out.rows = it
+                .fold(Vec::new, |mut v, r| {
+                    v.push(r);
+                    v
+                })
+                .reduce(Vec::new, |mut a, mut b| {
+                    a.append(&mut b);
+                    a
+                })
+        }
+        PTerm::Count => out.count = Some(it.count()),
+        PTerm::FilterCollect => out.rows = it.filter(qrow_pred).collect(),
+        PTerm::FindAny => out.found = Some(it.find_any(qrow_pred)),
+        PTerm::Any => out.any = Some(it.any(|r| qrow_pred(&r))),
+    }
+    out
+}
+
+pub const POOL_SIZES: [usize; 6] = [1, 2, 3, 4, 8, 16];
+
+pub fn pool(i: usize) -> &'static rayon::ThreadPool {
+    use std::sync::OnceLock;
+    static POOLS: OnceLock<Vec<rayon::ThreadPool>> = OnceLock::new();
+    &POOLS.get_or_init(|| POOL_SIZES.iter().map(|n| rayon::ThreadPoolBuilder::new().num_threads(*n).build().unwrap()).collect())[i % POOL_SIZES.len()]
+}
+
 /// Helper implemented for every view type so that generated code is uniform.
 pub trait Observe {
     fn observe(self, salt: Option<u32>) -> Option<(Obs, Obs)>;
 }
 
 pub fn mutate(old: u32, salt: u32) -> u32 {
-    old.wrapping_mul(31).wrapping_add(salt) & 0x7fff_ffff
+    (old.wrapping_mul(31).wrapping_add(salt) & 0x7fff_ffff) % 60_000
 }
 
 impl<'a, C: vcommon::Comp> Observe for &'a C {
@@ -249,6 +330,9 @@ pub trait Reg: Sized + 'static {
     fn run_query(w: &mut Self::W, q: usize, mode: QMode, salt: Option<u32>) -> QueryOut;
     /// single-entity query through `World::entry(id).query(..)` with the views/filter of query `q`
     fn entry_query(w: &mut Self::W, id: Id, q: usize, salt: Option<u32>) -> Option<Option<QRow>>;
+    /// indices (into `queries()`) of the queries also compiled as parallel queries
+    fn par_queries() -> &'static [usize];
+    fn run_par_query(w: &mut Self::W, q: usize, term: PTerm, salt: Option<u32>, pool: &rayon::ThreadPool) -> ParOut;
     fn entry_metas() -> &'static [EntryMeta];
     /// run query `e.views`, and through its `entries` probe each id with `e.sub_views`
     fn entries_query(w: &mut Self::W, e: usize, ids: &[Id], salt: Option<u32>) -> EntriesOut;
